@@ -510,6 +510,41 @@ void h_bintFrPlacev(void)
 	VREACH();
 }
 
+/* ============================== product and quotient: memory safety and result form ONLY =============
+ * (thorough tier)  The arithmetic identities r == a*b and a == q*b + r are NOT decided (64-bit multiplier and
+ * divider equivalences); what is checked for operands of <= 2 digits is that the routines stay inside the
+ * capacities their callers provide (bintTimes: ac+bc digits; bintDivide: m+1 and n+m+1 digits), never reach an
+ * internal assert, and leave results in result form. */
+void h_iintTimes_wf(void)
+{
+	INPUT(BIntS, sent); g_sent = sent;
+	IN_STORED(a); IN_STORED(b); IN_STORED(r);
+	ASSUME(a->placec <= a->placea && b->placec <= b->placea && a->placec <= 2 && b->placec <= 2);
+	ASSUME(BS_WF_ST(a) && BS_WF_ST(b) && !a->isNeg && !b->isNeg);
+	ASSUME(r->placea == a->placec + b->placec && r->placec == r->placea);      /* bintAllocPlaces(ac + bc) */
+	iintTimes(r, a, b);
+	CHECK("iintTimes: result form", BS_WF_RES(r) || (r->placec <= r->placea && (r->placec == 0 || BS_TOP_NZ(r))));
+	CHECK("iintTimes: no digit stored beyond the capacity", SLACK_OK(r) && SLACK_OK(a) && SLACK_OK(b));
+	VREACH();
+}
+void h_iintDivide_wf(void)
+{
+	INPUT(BIntS, sent); g_sent = sent;
+	IN_STORED(u); IN_STORED(v); IN_STORED(q); IN_STORED(r);
+	ASSUME(u->placec <= u->placea && v->placec <= v->placea && u->placec <= 3 && v->placec <= 2);
+	ASSUME(BS_WF_ST(u) && BS_WF_ST(v) && !u->isNeg && !v->isNeg && BS_TOP_NZ(v) && BS_TOP_NZ(u));
+	ASSUME(u->placec >= v->placec);
+	/* bintDivide: n = Placec(b), m = Placec(a) - n; q = bintAllocPlaces(m+1), r = bintAllocPlaces(n+m+1) */
+	ASSUME(q->placea == u->placec - v->placec + 1 && q->placec == q->placea);
+	ASSUME(r->placea == u->placec + 1 && r->placec == r->placea);
+	ASSUME(v->placea > v->placec);      /* iintTimesS(v, v, d) may need a carry digit only by value; give it room */
+	iintDivide(q, r, u, v);
+	CHECK("iintDivide: quotient and remainder in result form",
+	      q->placec <= q->placea && (q->placec == 0 || BS_TOP_NZ(q)) && r->placec <= r->placea && (r->placec <= 1 || BS_TOP_NZ(r)));
+	CHECK("iintDivide: no digit stored beyond the capacity", SLACK_OK(q) && SLACK_OK(r) && SLACK_OK(u) && SLACK_OK(v));
+	VREACH();
+}
+
 #ifdef NATIVE_REPLAY
 V_NATIVE_MAIN(ENTRY)
 #endif
